@@ -158,6 +158,14 @@ def gen(rng, focus=None):
             if rng.random() < 0.2:
                 ts.append(rng.choice(ts))          # the same filter twice in one packet
             req = [f"{t}|{rng.choice([0, 1, 2])}" for t in ts]
+            if rng.random() < 0.4:
+                # a retained message (QoS 1/2) is waiting on one of the topics: the SUBSCRIBE replays it — over the subscription as the
+                # hook leaves it (granted QoS, rejection), not as it was requested (seed C14-6)
+                pc, _, _ = client()
+                qr, pr = rng.choice([1, 2]), pid()
+                ops.append(f"pub {pc} {rng.choice(ts)} q={qr} pid={pr} r=1 tag={tag()}"); log(True)
+                if qr == 2:
+                    ops.append(f"rel {pc} {pr}")
             r = rng.random()
             kv = []
             if r < 0.25:
